@@ -327,6 +327,8 @@ func (p *Parser) ParseCallStatement() (*ast.CallStatement, error) {
 
 			if p.PeekTokenIs(token.COMMA) {
 				p.NextToken()
+				// comments before the comma belong to the preceding argument
+				SwapLeadingTrailing(p.curToken, expr.GetMeta())
 			} else if !p.PeekTokenIs(token.RIGHT_PAREN) {
 				return nil, errors.WithStack(UnexpectedToken(p.peekToken, "COMMA or RIGHT_PAREN"))
 			}
@@ -336,6 +338,12 @@ func (p *Parser) ParseCallStatement() (*ast.CallStatement, error) {
 			return nil, errors.WithStack(UnexpectedToken(p.peekToken, "RIGHT_PAREN"))
 		}
 		p.NextToken()
+		// comments before the right parenthesis belong to the last argument, or to the subroutine name
+		if len(stmt.Arguments) > 0 {
+			SwapLeadingTrailing(p.curToken, stmt.Arguments[len(stmt.Arguments)-1].GetMeta())
+		} else {
+			SwapLeadingTrailing(p.curToken, stmt.Subroutine.GetMeta())
+		}
 		hasParenthesis = true
 	}
 
@@ -484,9 +492,10 @@ func (p *Parser) ParseErrorStatement() (*ast.ErrorStatement, error) {
 	// If code exists, attach comment to it as Trailing
 	case stmt.Code != nil:
 		SwapLeadingTrailing(p.curToken, stmt.Code.GetMeta())
-	// Otherwise, attach comment to the statement as Trailing
+	// Otherwise, attach comment to the statement as Infix
+	// because the Trailing is comments after the semicolon
 	default:
-		SwapLeadingTrailing(p.curToken, stmt.Meta)
+		SwapLeadingInfix(p.curToken, stmt.Meta)
 	}
 	stmt.Trailing = p.Trailing()
 
@@ -989,6 +998,9 @@ func (p *Parser) ParseCaseStatement() (*ast.CaseStatement, error) {
 			if err != nil {
 				return nil, errors.WithStack(err)
 			}
+			// The prefix expression node is not held in the tree,
+			// comments before the operator are moved to infix comments of the case statement
+			SwapLeadingInfix(exp.Meta, stmt.Meta)
 			matchExp.Operator = "~"
 			matchExp.Right = exp.Right
 		default:
